@@ -1303,7 +1303,8 @@ class Scene(Geometry3D):
                 # transform for geometry
                 new_geom = np.dot(scale_3D, original)
 
-                if result.geometry[geometry].vertices.shape[1] == 2:
+                is_2D = result.geometry[geometry].vertices.shape[1] == 2
+                if is_2D:
                     # if our scene is 2D only scale in 2D
                     result.geometry[geometry].apply_transform(scale_2D)
                 else:
@@ -1311,8 +1312,15 @@ class Scene(Geometry3D):
                     result.geometry[geometry].apply_transform(new_geom)
 
                 for node, T in zip(nodes[group], transforms[group]):
-                    # generate the new transforms
-                    transform = util.multi_dot([scale_3D, T, np.linalg.inv(new_geom)])
+                    if is_2D:
+                        # planar geometry was scaled but not moved to the
+                        # first instance so every instance keeps its transform
+                        transform = T.copy()
+                    else:
+                        # generate the new transforms
+                        transform = util.multi_dot(
+                            [scale_3D, T, np.linalg.inv(new_geom)]
+                        )
                     # apply scale to translation
                     transform[:3, 3] *= scale
                     # update scene with new transforms
